@@ -4,6 +4,7 @@ import (
 	"encoding/json"
 	"fmt"
 	"strings"
+	"sync"
 
 	"cuelang.org/go/cue"
 	"cuelang.org/go/cue/cuecontext"
@@ -58,23 +59,33 @@ func CueValidate(query, cueFile, currentPath string) (tc CanBeAPart, err error) 
 
 	// mpath operations are cached to ensure speed of execution as this method is expected to be hit many times
 	var op Operation
-	if op, ok = mpathOpCache[query]; !ok {
+	cacheMu.Lock()
+	op, ok = mpathOpCache[query]
+	cacheMu.Unlock()
+	if !ok {
 		op, err = ParseString(query)
 		if err != nil {
 			return nil, fmt.Errorf("failed to parse mpath query: %w", err)
 		}
+		cacheMu.Lock()
 		mpathOpCache[query] = op
+		cacheMu.Unlock()
 	}
 
 	// cue values are cached to ensure speed of execution as this method is expected to be hit many times
 	var rootValue cue.Value
-	if rootValue, ok = cueValueCache[cueFile]; !ok {
+	cacheMu.Lock()
+	rootValue, ok = cueValueCache[cueFile]
+	cacheMu.Unlock()
+	if !ok {
 		ctx := cuecontext.New()
 		rootValue = ctx.CompileString(cueFile)
 		if rootValue.Err() != nil {
 			return nil, fmt.Errorf("failed to parse cue file: %w", rootValue.Err())
 		}
+		cacheMu.Lock()
 		cueValueCache[cueFile] = rootValue
+		cacheMu.Unlock()
 	}
 
 	var blockedRootFields []string
@@ -313,6 +324,7 @@ func checkIfValueInList(value string, list []string) (isInList bool) {
 }
 
 var (
+	cacheMu       sync.Mutex
 	mpathOpCache  = map[string]Operation{}
 	cueValueCache = map[string]cue.Value{}
 )
